@@ -261,14 +261,22 @@ func runUpdate(o *Out, spec *Spec, r *Ref, m *MethodSpec) {
 			if zero {
 				cat := zeroCategory(sv.Type())
 				selected := (cat == "basic" && flags.IZBasic) || (cat == "struct" && flags.IZStruct) || (cat == "nillable" && flags.IZNillable) ||
-					(cat == "nillable-conditional" && flags.IZNillable && flags.SkipCopy && sv.Type() == tf.Type)
+					(cat == "nillable-conditional" && flags.IZNillable && flags.SkipCopy && sv.Type() == tf.Type) ||
+					// the value handed to a map|FUNC function is the source value of the field: slices and pointers count as nillable there
+					(cat == "nillable-conditional" && flags.IZNillable && fs.Func != "")
 				if selected {
 					keep("zero-valued source field of a selected category (" + cat + ")")
 				}
 				// not selected: the property constrains only non-zero sources
 				continue
 			}
-			want, err := r.Field(m, sv, tf.Type, []string{"field:" + tf.Name})
+			var want reflect.Value
+			var err error
+			if fs.Func != "" {
+				want, err = r.callFunc(r.Funcs[fs.Func], r.Callables[fs.Func], sv, tf.Type, nil)
+			} else {
+				want, err = r.Field(m, sv, tf.Type, []string{"field:" + tf.Name})
+			}
 			if err != nil {
 				ev.Abstained++
 				ev.AbstainWhy = err.Error()
